@@ -45,8 +45,14 @@ type Container struct {
 
 var Magic = [4]byte{'O', 'b', 'j', 1}
 
+// ParseHeader parses only the header of a container file (whatever follows is
+// not looked at).
+func ParseHeader(b []byte) (*Container, error) { return parse(b, true) }
+
 // ParseContainer parses a complete, valid container file.
-func ParseContainer(b []byte) (*Container, error) {
+func ParseContainer(b []byte) (*Container, error) { return parse(b, false) }
+
+func parse(b []byte, headerOnly bool) (*Container, error) {
 	c := &Container{Len: len(b)}
 	d := &Dec{Buf: b}
 	m, err := d.next(4)
@@ -105,6 +111,9 @@ func ParseContainer(b []byte) (*Container, error) {
 	}
 	copy(c.Sync[:], s)
 	c.HdrEnd = d.Pos
+	if headerOnly {
+		return c, nil
+	}
 	for d.Pos < len(b) {
 		var bl Block
 		bl.Start = d.Pos
@@ -223,11 +232,21 @@ type KV struct {
 	Val []byte
 }
 
-// WriteContainer renders a container file.
+// WriteContainer renders a container file with all metadata in one map block.
 func WriteContainer(magic [4]byte, meta []KV, sync [16]byte, blocks []BlockSpec) []byte {
+	return WriteContainerMeta(magic, [][]KV{meta}, sync, blocks)
+}
+
+// WriteContainerMeta renders a container file whose header metadata map is
+// written as the given sequence of map blocks (each non-empty group is one
+// block with a positive count), which the specification permits.
+func WriteContainerMeta(magic [4]byte, metaBlocks [][]KV, sync [16]byte, blocks []BlockSpec) []byte {
 	var b []byte
 	b = append(b, magic[:]...)
-	if len(meta) > 0 {
+	for _, meta := range metaBlocks {
+		if len(meta) == 0 {
+			continue
+		}
 		b = AppendLong(b, int64(len(meta)))
 		for _, kv := range meta {
 			b = AppendLong(b, int64(len(kv.Key)))
